@@ -20,7 +20,7 @@ RULE = ("cases = script template x crash step (every index) x failure kind x pro
 ASSUMPTIONS = ["close-delimited bodies cannot be visibly truncated and are excluded",
                "a crash after all declared content-length bytes were sent counts as complete",
                "an early return without exception is not required to be logged"]
-MIN_DECISIVE = {"pre-start-500": 10, "truncated": 10, "logged": 10, "siblings": 5}
+MIN_DECISIVE = {"pre-start-500": 10, "truncated": 10, "logged": 10, "siblings": 5, "server-keeps-working": 4}
 
 
 def _http_template(rng, tag, framing):
@@ -46,6 +46,7 @@ def _inject(steps, at, kind):
 def _progress(steps, at):
     """What the app managed to send before the crash point: (started, body_bytes_sent, completed)."""
     started, sent, completed = False, 0, False
+    trailers = any(st[0] == "send" and st[1].get("type") == "http.response.start" and st[1].get("trailers") for st in steps)
     for st in steps[:at]:
         if st[0] == "send":
             m = st[1]
@@ -53,12 +54,17 @@ def _progress(steps, at):
                 started = True
             elif m["type"] == "http.response.body":
                 sent += len(m.get("body", b""))
-                if not m.get("more_body", False):
+                if not m.get("more_body", False) and not trailers:
                     completed = True
+            elif m["type"] == "http.response.trailers" and not m.get("more_trailers", False):
+                completed = True
     return started, sent, completed
 
 
 def gen(rng, tier):
+    for be in ("asyncio", "trio"):
+        for paths in ([b"/crash0", b"/ok1"], [b"/crash1", b"/ok2"], [b"/crash0", b"/crash1", b"/crash0", b"/ok3"]):
+            yield {"family": "serve-smoke", "kind": "serve-smoke", "backend": be, "paths": paths}
     n = 0
     reps = 4 if tier == "quick" else 30
     for rep in range(reps):
@@ -92,6 +98,10 @@ def gen(rng, tier):
                             }
                     elif proto == "h2":
                         steps, total, sizes = _http_template(rng, tag, rng.choice(["cl", "none"]))
+                        if rng.random() < 0.4:
+                            # response that announces trailers: it is complete only once the trailers have been sent
+                            steps[1] = ["send", dict(steps[1][1], trailers=True, headers=[h for h in steps[1][1]["headers"] if h[0] != b"content-length"])]
+                            steps.append(["send", {"type": "http.response.trailers", "headers": [(b"x-t", b"1")], "more_trailers": False}])
                         for at in range(len(steps) + 1):
                             script = _inject(steps, at, kind)
                             fb = FrameBuilder()
@@ -108,7 +118,7 @@ def gen(rng, tier):
                                 else:
                                     path = b"/t%d" % tag
                                 blob += fb.headers(sid, [(b":method", b"GET"), (b":scheme", b"http"), (b":path", path),
-                                                         (b":authority", b"h")], end_stream=True)
+                                                         (b":authority", b"h"), (b"te", b"trailers")], end_stream=True)
                             yield {
                                 "family": "h2." + kind, "backends": ["asyncio", "trio"] if kind != "cancel" else ["asyncio"],
                                 "config": {"keep_alive_timeout": 5000}, "conn": {},
@@ -145,7 +155,55 @@ def gen(rng, tier):
 
 
 def nontrivial(case, obs):
+    if obs is None:
+        return True
     return any(e[3] == "note" for e in obs.trace.events if e[2] == "app")
+
+
+def run_one(case, tally):
+    """Tier A cases go through the default executor; the 'server keeps working' smoke runs the real serve()."""
+    from ..runner import default_run_one
+    import sys
+
+    if case.get("kind") != "serve-smoke":
+        return default_run_one(sys.modules[__name__], case, tally)
+    from ..world.realnet import ServeHarness, recv_all
+
+    findings = []
+    be = case["backend"]
+    apps = {"lifespan": [["recv"], ["send", {"type": "lifespan.startup.complete"}], ["recv"], ["send", {"type": "lifespan.shutdown.complete"}]],
+            "default": [["recv_until_end"], ["respond", 200, [(b"content-length", b"2")], b"ok"]],
+            "by_path": {"/crash0": [["recv_until_end"], ["raise", "Exception"]],
+                        "/crash1": [["recv_until_end"], ["send", {"type": "http.response.start", "status": 200, "headers": [(b"content-length", b"10")]}],
+                                    ["send", {"type": "http.response.body", "body": b"12345", "more_body": True}], ["raise", "Exception"]]}}
+    h = ServeHarness(be, {"graceful_timeout": 0.5, "shutdown_timeout": 0.5, "keep_alive_timeout": 5.0}, apps)
+    try:
+        h.start()
+        h.wait_event(lambda e: e[2] == "app" and e[3] == "send.", 3.0)
+        results = []
+        for path in case["paths"]:
+            s = h.connect()
+            if s is None:
+                results.append((path, None))
+                continue
+            s.sendall(b"GET %s HTTP/1.1\r\nHost: h\r\n\r\n" % path)
+            d, eof = recv_all(s, timeout=1.0)
+            results.append((path, d[:12]))
+            s.close()
+        alive = not h.done.is_set()
+        h.trigger_shutdown()
+        h.wait_done(4.0)
+    finally:
+        h.close()
+    tally.clause("server-keeps-working")
+    for path, head in results:
+        if path.startswith(b"/ok") and (head is None or b" 200" not in head):
+            findings.append({"clause": "server-keeps-working", "sig": "C05.later-connection-broken/%s" % be, "backend": be,
+                             "detail": "after an application failure a fresh connection got %r for %r (all: %r)" % (head, path, results)})
+    if not alive or (isinstance(h.result, tuple)):
+        findings.append({"clause": "server-keeps-working", "sig": "C05.server-died/%s" % be, "backend": be,
+                         "detail": "serve() ended after an application failure: %r" % (h.result,)})
+    return findings, [None]
 
 
 def _logged(obs):
